@@ -13,7 +13,9 @@ use std::time::Duration;
 pub type Tid = usize;
 pub type ResId = u64;
 
-static NEXT_RES: AtomicU64 = AtomicU64::new(1);
+static NEXT_RES: AtomicU64 = AtomicU64::new(16);
+/// Resource the tokio runtime thread parks on while foreign (simulated) threads run.
+pub const IDLE_RES: ResId = 1;
 pub fn new_res() -> ResId {
     NEXT_RES.fetch_add(1, Ordering::Relaxed)
 }
@@ -280,8 +282,23 @@ impl Kernel {
             }
             // Nothing runnable: quiescence. Advance the clock to the earliest deadline.
             if inner.external_clock {
-                // The clock belongs to someone else (tokio); the pump handles deadlines.
-                return None;
+                // The clock belongs to tokio. The runtime thread (T0) parks on IDLE_RES while
+                // foreign threads run; once none of them can move it gets the baton back and
+                // lets tokio advance the clock (which is how their deadlines fire).
+                if let TState::Blocked { res, .. } = inner.threads[0].state
+                    && res == IDLE_RES
+                {
+                    inner.threads[0].state = TState::Runnable;
+                    inner.threads[0].wake = Wake::Signal;
+                    continue;
+                }
+                if inner.main_done {
+                    self.end(inner, Outcome::Completed);
+                    return None;
+                }
+                // The runtime thread itself is blocked on a simulated primitive and nobody
+                // can release it without time passing: fall through to the kernel-owned
+                // clock advance (tokio's clock catches up lazily, see tokio_rt::rt_now).
             }
             let mut min_deadline: Option<u64> = None;
             for t in &inner.threads {
@@ -343,8 +360,14 @@ impl Kernel {
     fn reschedule(self: &Arc<Self>, me: Tid, new_state: TState) -> Wake {
         let my_sem;
         let finished = matches!(new_state, TState::Finished);
+        let rt_now = crate::tokio_rt::rt_now();
         {
             let mut inner = self.lock();
+            if let Some(ns) = rt_now
+                && ns > inner.now
+            {
+                inner.now = ns;
+            }
             if inner.outcome.is_some() {
                 drop(inner);
                 self.park_forever();
@@ -552,6 +575,7 @@ impl Kernel {
             });
             Self::log(&mut inner, || format!("spawn T{tid} '{name}'"));
         }
+        crate::tokio_rt::thread_spawned();
         let k = self.clone();
         let builder = std::thread::Builder::new().name(format!("sim-{name}"));
         builder
@@ -591,6 +615,21 @@ impl Kernel {
         self.signal(done_res);
         CUR.with(|c| *c.borrow_mut() = None);
         self.reschedule(me, TState::Finished);
+    }
+
+    /// Threads other than `me` that have not finished (and were not frozen by a crash).
+    pub fn live_others(&self, me: Tid) -> usize {
+        let inner = self.lock();
+        inner
+            .threads
+            .iter()
+            .enumerate()
+            .filter(|(i, t)| *i != me && !matches!(t.state, TState::Finished) && !t.crashed)
+            .count()
+    }
+
+    pub fn is_external_clock(&self) -> bool {
+        self.lock().external_clock
     }
 
     pub fn is_crashed(&self, tid: Tid) -> bool {
@@ -820,7 +859,12 @@ pub fn crash_disarm() -> bool {
 
 pub fn now_ns() -> u64 {
     match current() {
-        Some((k, _)) => k.now(),
+        Some((k, _)) => {
+            if let Some(ns) = crate::tokio_rt::rt_now() {
+                k.set_now_external(ns);
+            }
+            k.now()
+        }
         None => {
             static START: std::sync::OnceLock<std::time::Instant> = std::sync::OnceLock::new();
             START.get_or_init(std::time::Instant::now).elapsed().as_nanos() as u64
